@@ -30,7 +30,8 @@ MODELLED = {
                   'Buffer.sine2': 'bsine2', 'Buffer.sine3': 'bsine3', 'Buffer.cheby': 'bcheby',
                   'Buffer.copy_data': 'bcopy'},
     'server.py': {'Server._free_all_buffers': 'bfreeall', 'Server.bind': 'bind/end/raise',
-                  'Server.free_default_group': 'freedg', 'Server.reorder': 'reorder'},
+                  'Server.free_default_group': 'freedg', 'Server.reorder': 'reorder',
+                  'Server.sync': 'sync (through addr.sync; BundleNetAddr.sync inside bind blocks)'},
 }
 # sending methods deliberately outside the model (reply-driven, file I/O, boot/quit, routines)
 UNMODELLED = {
@@ -39,7 +40,7 @@ UNMODELLED = {
     'buffer.py': {'Buffer.alloc_read', 'Buffer.alloc_read_channel', 'Buffer.read', 'Buffer.read_channel',
                   'Buffer.cue', 'Buffer.write', 'Buffer.update_info', 'Buffer._stream_list',
                   'Buffer.get_to_list', 'Buffer.prepare_partconv'},
-    'server.py': {'Server.dump_osc', 'Server.sync', 'Server._send_default_groups',
+    'server.py': {'Server.dump_osc', 'Server._send_default_groups',
                   'Server._send_default_groups_for_client_ids', 'Server._boot_init', 'Server.quit',
                   'Server.free_nodes'},
 }
@@ -295,7 +296,9 @@ def parse_line(line):
         p = p.strip()
         if not p:
             continue
-        if p.startswith('M '):
+        if p == 'S':
+            pkts.append(('S', None, []))
+        elif p.startswith('M '):
             pkts.append(('M', None, [p[2:]]))
         elif p.startswith('B '):
             time, _, body = p[2:].partition(' ')
@@ -351,7 +354,7 @@ class Check(common.Check):
     LEAN_DIRS = ['Sc3Verif/C17']
     THEOREMS = ['Sc3Verif.C17.' + t for t in (
         'emitted_conforms', 'embedL_pairs', 'bind_one_bundle_in_order', 'unbound_sends_each',
-        'bind_nested_appends', 'bind_raises_sends_nothing', 'bind_preserves_issue_order',
+        'bind_nested_appends', 'bind_raises_sends_nothing', 'bind_preserves_issue_order', 'sync_flushes_everything',
         'synth_create_uses_own_id', 'group_create_uses_own_id', 'next_node_id_is_allocator_id',
         'buffer_create_uses_own_id', 'consecutive_create_uses_own_ids',
         'buffer_free_once_and_returns_id', 'buffer_double_free_silent', 'free_all_frees_every_id_once',
@@ -450,6 +453,9 @@ class Check(common.Check):
         for _ in range(nops):
             r = rng.random()
             if r < p_bind:
+                if st['depth'] and rng.random() < 0.3:
+                    ops.append('sync')
+                    continue
                 if st['depth'] and rng.random() < 0.6:
                     ops.append(rng.choice(['end', 'end', 'end', 'raise']))
                     if ops[-1] == 'end':
@@ -470,6 +476,12 @@ class Check(common.Check):
                     if kind != 'grain':
                         st['groups' if kind in ('group', 'pgroup') else 'synths'].append(st['node'])
                         st['node'] += 1
+                        if rng.random() < 0.3:
+                            ops.append(f'register n{st["node"] - 1}')
+                            if rng.random() < 0.6:
+                                ops.append(f'run n{st["node"] - 1} {rng.choice("TF")}')
+                                if rng.random() < 0.6:
+                                    ops.append(f'run n{st["node"] - 1} {rng.choice("TF")}')
                     continue
                 ni = rng.randrange(st["node"])
                 n = f'n{ni}'
@@ -541,6 +553,17 @@ class Check(common.Check):
                     continue
                 bi = rng.choice(st['cbus']) if st['cbus'] and rng.random() < 0.8 else rng.randrange(st['bus'])
                 b = f'b{bi}'
+                if st['node'] and bi in st['cbus'] and rng.random() < 0.25:
+                    # the map symbol of the bus is asked for (cached), the bus freed, the symbol asked for again
+                    n = f'n{rng.randrange(st["node"])}'
+                    ops.append(f'set {n} {self.gen_ctl(rng)} m{bi}')
+                    if rng.random() < 0.7:
+                        ops.append(f'busfree b{bi}')
+                        ops.append(rng.choice([f'set {n} {self.gen_ctl(rng)} m{bi}', f'map {n} sfreq b{bi}',
+                                               f'synth default N i0 ( sout m{bi} )']))
+                        if ops[-1].startswith('synth'):
+                            st['synths'].append(st['node']); st['node'] += 1
+                    continue
                 m = rng.choice(['busfree', 'busfree', 'cset', 'csetn', 'csetat', 'csetnat', 'cpairs', 'cfill',
                                 'cclear', 'cget', 'cgetn'])
                 if bi not in st['cbus'] and m != 'busfree':
@@ -616,7 +639,7 @@ class Check(common.Check):
                 ops[-1] = ops[-1].rstrip()
         while st['depth'] and rng.random() < 0.8:
             ops.append('end'); st['depth'] -= 1
-        opts = {'client_id': rng.choice([0, 0, 1, 3]), 'max_logins': 4,
+        opts = {'client_id': rng.choice([0, 0, 1, 3]), 'max_logins': 4, 'running': rng.random() < 0.6,
                 'latency': rng.choice(['1/4', '1/8', '0', None]), 'buffers': rng.choice([64, 1024])}
         return {'opts': opts, 'ops': ops}
 
@@ -680,7 +703,7 @@ class Check(common.Check):
                 if t.startswith('{') and t.endswith('}'):
                     walk(t[1:-1])
         for kind, _, msgs in pkts:
-            if kind in 'MB':
+            if kind in ('M', 'B'):
                 for m in msgs:
                     walk(m)
         return out
@@ -717,6 +740,7 @@ class Check(common.Check):
         node_ids = {0, -1} | self.default_groups(case)
         handles_buf = []           # bufnum per buffer handle (None after free)
         handles_bus = []           # (audio?, index, channels) per bus handle (None after free)
+        handles_node = []          # node id per node handle
         blocks = []                # used blocks of the buffer allocator (from the status suffix)
         depth, block_msgs, aligned = 0, [], len(W) == len(T)
 
@@ -751,11 +775,36 @@ class Check(common.Check):
                     if why:
                         return {'what': f'op #{i} `{line}`{where} emitted `{m[:160]}`: {why}',
                                 'signature': f'grammar:{m.split()[0]}', 'index': i}
-            tmsgs = [m for k, _, ms in tpk if k in 'MB' for m in ms]
+            tmsgs = [m for k, _, ms in tpk if k in ('M', 'B') for m in ms]
             # -- ids: node ids issued so far / default groups / literals of the call
             mnode = re.match(r'ok n(-?\d+)', tst)
             if mnode:
                 node_ids.add(int(mnode.group(1)))
+                if op in ('synth', 'synthp', 'replace', 'group', 'pgroup'):
+                    handles_node.append(int(mnode.group(1)))
+            # -- run(flag) always emits exactly `/n_run id flag` (whatever the node watcher believes)
+            if op == 'run' and tst.startswith('ok'):
+                hn = int(line.split()[1][1:])
+                if hn < len(handles_node):
+                    want = [f'/n_run i{handles_node[hn]} i{1 if line.split()[2] == "T" else 0}']
+                    if tmsgs != want:
+                        return {'what': f'op #{i} `{line}` must emit {want}, emitted {tmsgs}',
+                                'signature': 'node:run', 'index': i}
+            # -- map symbols name a bus the client owns NOW and that the call was given
+            for m in tmsgs:
+                for t in split_tokens(m):
+                    ms = re.fullmatch(r's([ac])(\d+)', t)
+                    if not ms:
+                        continue
+                    owners = [int(x[1:]) for x in line.replace('(', ' ').replace(')', ' ').split()
+                              if re.fullmatch(r'm\d+', x)]
+                    ok = any(h < len(handles_bus) and handles_bus[h] is not None
+                             and handles_bus[h][0] == (ms.group(1) == 'a') and handles_bus[h][1] == int(ms.group(2))
+                             for h in owners)
+                    if not ok:
+                        return {'what': f'op #{i} `{line}`: `{m[:120]}` mentions map symbol {t[1:]} but no bus '
+                                        f'argument of the call owns that index (bus ledger {handles_bus})',
+                                'signature': 'ids:mapsym', 'index': i}
             allowed = node_ids | lits(line)
             for m in tmsgs:
                 ts = split_tokens(m)
@@ -881,7 +930,7 @@ class Check(common.Check):
                             'signature': 'free_all:ids', 'index': i}
                 if blocks:
                     return {'what': f'op #{i} `{line}`: allocator still holds {blocks}', 'signature': 'free_all:returned'}
-                if len([k for k in tpk if k[0] in 'MB']) > 1:
+                if len([k for k in tpk if k[0] in ('M', 'B')]) > 1:
                     return {'what': f'op #{i} `{line}`: sent as {len(tpk)} packets', 'signature': 'free_all:packets'}
             if op.startswith('b') and op not in ('bind', 'busfree', 'bufx', 'bcopy') and tst.startswith('ok'):
                 for m in tmsgs:
@@ -902,6 +951,20 @@ class Check(common.Check):
                     if depth == 0:
                         block_msgs = []
                     depth += 1
+                continue
+            if line == 'sync':
+                if st.startswith('skipped'):
+                    continue
+                if depth > 0:
+                    want = ([('B', lat, block_msgs)] if block_msgs else []) + [('S', None, [])]
+                    if pk != want:
+                        return {'what': f'op #{i}: sync inside a bind block after {block_msgs} were issued '
+                                        f'(unbound twin); the wire got {pk}, expected one bundle at latency {lat} '
+                                        f'with exactly these messages in this order, then the sync',
+                                'signature': 'bind:sync', 'index': i}
+                    block_msgs = []
+                elif pk != [('S', None, [])]:
+                    return {'what': f'op #{i}: sync outside a block sent {pk}', 'signature': 'bind:sync', 'index': i}
                 continue
             if line == 'end':
                 if st.startswith('ok') and depth > 0:
